@@ -13,7 +13,7 @@ from .stmts import StmtMixin, _Break, _Continue
 from . import specs as S
 
 BUILTIN_TYPES = ['int', 'str', 'bool', 'tuple', 'float', 'list', 'dict', 'NoneType', 'type', 'ndarray', 'object',
-                 'Iterable', 'function', 'DataFrame', 'Row', 'Random', 'Logger']
+                 'Iterable', 'function', 'DataFrame', 'Row', 'Random', 'Logger', 'File']
 
 
 class Obligation:
@@ -490,7 +490,7 @@ class Exec(HeapMixin, ExprMixin, CallMixin, StmtMixin):
                 raise Unsupported(f'ghost.{name} undeclared')
             if t.startswith('map'):
                 return VGhostMap(name, st)
-            return self.from_terms([self.arr(('g', name), st)], ty.parse(t))
+            return self.from_terms([self.arr(('g', name), st)], ty.parse(t), st)
         return ExprMixin.getattr(self, obj, name)
 
     def getitem(self, obj, idx):
@@ -534,6 +534,11 @@ class Exec(HeapMixin, ExprMixin, CallMixin, StmtMixin):
                 objv = self.eval_pure(lambda: self.eval(node.value))
                 if isinstance(objv, VFunc) and objv.kind == 'class':
                     objv = self.class_ref(objv)
+                if not (isinstance(objv, VRef) and isinstance(objv.typ, ty.TRef)):
+                    v = self.eval_pure(lambda: self.eval(node))
+                    if isinstance(v, VRef) and isinstance(v.typ, (ty.TList, ty.TDict)):
+                        return [(k, v.term, False) for k in self.store_keys(v.typ)]
+                    raise Unsupported(f'modifies location {s}')
                 cname = objv.typ.cls
                 ft = self.field_type(cname, node.attr)
                 if ft is None:
@@ -966,6 +971,16 @@ def _agg(name):
     return h
 
 
+def _h_as_dict(eng, x):
+    if isinstance(x, VRef) and isinstance(x.typ, ty.TDict):
+        return x
+    return VRef(x.term, ty.parse('dict[str,any]'), x.st)
+
+
+def _h_file_log(eng, name):
+    return VRef(z3.Function('file_log', I, I)(name.term), ty.parse('list[any]'))
+
+
 def _h_typeof(eng, x):
     return eng.type_of_value(x)
 
@@ -982,6 +997,6 @@ SPEC_HELPERS = dict(pos_in=_h_pos_in, implies=_h_implies, iff=_h_iff, index_of=_
                     is_fresh=_h_is_fresh, same_elems=_h_same_elems, same_dict=_h_same_dict, typeof=_h_typeof, same=_h_same,
                     same_obj=_h_same, now=_h_now, was=_h_was, origin=_h_origin, by_lemma=_h_by_lemma, as_list=_h_as_list, is_ndarray=_h_is_ndarray,
                     is_list=_h_is_list, is_str_value=_h_is_str_value, iterable=_h_iterable, items_of=_h_items_of,
-                    rec_has=_h_rec_has, rec_get=_h_rec_get, agg_min=_agg('min'), agg_max=_agg('max'),
+                    rec_has=_h_rec_has, rec_get=_h_rec_get, as_dict=_h_as_dict, file_log=_h_file_log, agg_min=_agg('min'), agg_max=_agg('max'),
                     agg_mean=_agg('mean'), agg_sum=_agg('sum'), agg_variance=_agg('variance'),
                     is_none=_h_is_none)
